@@ -582,6 +582,9 @@ func (w *w1World) checkClientLog(cl *w1SimClient) {
 					}
 				}
 				sig += w.rnq()
+				if w.sc.Cfg.Batch && chHas(f.Ch, 'b') {
+					sig += " [per-channel batching]"
+				}
 				s.Violate("C10", "push-outside-subscription", sig, "client %d received %s for %s outside a subscription (frame seq %d): %s", cl.idx, f.Kind, f.Ch, f.Seq, sig)
 				continue
 			}
